@@ -23,6 +23,7 @@ CODES = {
     12: "what a client received differs from what the proxy wrote (T11_inflight_completes)",
     13: "a closing response was written but the client did not see the socket closed (T11_inflight_completes)",
     14: "a tunnel (CONNECT 2xx / 101) was opened although closing had been observed before its dial / round trip returned (T11_no_new_work)",
+    15: "a client was told (complete 2xx without Connection: close) that a tunnel was opened although closing had been observed before its dial / round trip returned (T11_no_new_work)",
 }
 
 
